@@ -643,6 +643,22 @@ def _rest_r11e(ctx, repo, m, meths, ip):
                'raise LatexWalkerEndOfStream(final_space=pre_space) when pos >= len(s)',
                'end of stream is not reported with the trailing whitespace', construct='end of stream')
     ctx.assume('configured delimiters, comment start and specials sequences are non-empty strings')
+    # ---- R11i (grules G15): positions found with str.find()
+    ctx.rule('R11i', 'in the token reader the result of str.find()/rfind() is used as a position only where the text '
+                     'searched for is known to occur (compared with -1, or counted >= 1 with the same argument): a token '
+                     'is never cut at "not found"', 0)
+    from .. import grules as _gr
+    n_fd = 0
+    for q_, f_ in sorted(m.functions.items()):
+        for use_, name_, d_, path_ in _gr.unchecked_find(f_):
+            n_fd += 1
+            ctx.refuted('R11i', m, enclosing_stmt(use_) or use_, '%s: %s = %s is used as a position on the path [%s] without '
+                        'having been compared with -1 and without a count() test of the same text: for whitespace that '
+                        'holds none of it the token is cut at -1 -- it has the wrong extent or zero width and the reader '
+                        'does not advance' % (q_, name_, short(d_, 40), path_),
+                        construct='%s: %s from %s' % (q_, name_, short(d_, 40)))
+    ctx.holds('R11i', m, None, 'no unchecked find() position in the token reader', construct='find() scan', trivial=True)
+
     return 'other', (
         'Decides, at every token construction site, that the token has positive width and carries '
         'the peeked whitespace unchanged with positions recomputed consistently; an effect analysis '
